@@ -33,5 +33,20 @@ Damaged == IF kind = "cut" THEN SubSeq(Doc, 1, Len(Doc) - a)
            ELSE IF kind = "tail" THEN Doc \o b
            ELSE IF kind = "flip" THEN [Doc EXCEPT ![a] = b[1]]
            ELSE Doc
-Export == PrintT(<<"GEN", ToJson([src |-> d, kind |-> kind, doc |-> Damaged])>>)
+\* well-formed UTF-8 (Unicode table 3-7): the guard of Dev_JsonMemoryAcceptsIllFormedUtf8
+RECURSIVE ValidUtf8(_, _)
+ValidUtf8(bs, i) ==
+  IF i > Len(bs) THEN TRUE
+  ELSE LET c == bs[i]
+           Cont(j, lo, hi) == j <= Len(bs) /\ bs[j] >= lo /\ bs[j] <= hi IN
+       IF c < 128 THEN ValidUtf8(bs, i + 1)
+       ELSE IF c >= 194 /\ c <= 223 THEN Cont(i + 1, 128, 191) /\ ValidUtf8(bs, i + 2)
+       ELSE IF c = 224 THEN Cont(i + 1, 160, 191) /\ Cont(i + 2, 128, 191) /\ ValidUtf8(bs, i + 3)
+       ELSE IF (c >= 225 /\ c <= 236) \/ c \in {238, 239} THEN Cont(i + 1, 128, 191) /\ Cont(i + 2, 128, 191) /\ ValidUtf8(bs, i + 3)
+       ELSE IF c = 237 THEN Cont(i + 1, 128, 159) /\ Cont(i + 2, 128, 191) /\ ValidUtf8(bs, i + 3)
+       ELSE IF c = 240 THEN Cont(i + 1, 144, 191) /\ Cont(i + 2, 128, 191) /\ Cont(i + 3, 128, 191) /\ ValidUtf8(bs, i + 4)
+       ELSE IF c >= 241 /\ c <= 243 THEN Cont(i + 1, 128, 191) /\ Cont(i + 2, 128, 191) /\ Cont(i + 3, 128, 191) /\ ValidUtf8(bs, i + 4)
+       ELSE IF c = 244 THEN Cont(i + 1, 128, 143) /\ Cont(i + 2, 128, 191) /\ Cont(i + 3, 128, 191) /\ ValidUtf8(bs, i + 4)
+       ELSE FALSE
+Export == PrintT(<<"GEN", ToJson([src |-> d, kind |-> kind, doc |-> Damaged, utf8ok |-> ValidUtf8(Damaged, 1)])>>)
 =============================================================================
